@@ -203,6 +203,23 @@ CHECKS = {
                   "validated by TLC (trace validation)",
         ref="DESIGN.md section 4 C17, section 3.8",
     ),
+    "C19": dict(
+        text="Heartbeat.tla models the sweep as the code does it (stale query, compare-and-set FAIL per listed trial, "
+             "callbacks for the trials this worker failed, retry chains through RetryFailedTrialCallback, crash of a sweeper "
+             "anywhere) and TLC checks FailedByAtMostOne, CallbackAtMostOnce, AtMostOneRetryPerFailure, RetriesBounded, "
+             "HistoryCorrect and Untouched for 2 workers over every heartbeat/state pattern; the SQLite variant must fail "
+             "(K1). Real executions on RDBStorage(SQLite) with heartbeats: trials in every state/heartbeat pattern "
+             "(heartbeat rows written directly, no sleeping), 1-2 workers sweeping in turn through fail_stale_trials and "
+             "through optimize while queued retries are taken and die again, and two workers sweeping concurrently "
+             "interleaved per SQL statement with one possibly dying mid-sweep (its connection closed, as the OS would); "
+             "TLC validates every execution against HeartbeatTrace.",
+        note="Trusted: TLC, the instrumentation of set_trial_state_values/the callback on the storage object (outside the "
+             "repository). RDB = SQLite. Known finding K1 (double FAIL across connections) matched by shape on the "
+             "concurrent family only.",
+        technique="TLA+ algorithm spec model-checked with TLC (incl. a failing SQLite variant); real sweeps, sequential "
+                  "and scheduled per SQL statement, validated by TLC (trace validation)",
+        ref="DESIGN.md section 4 C19, section 3.6",
+    ),
     "C20": dict(
         text="Handles.tla extends the Storage contract with handles (abstract value at read time) and the frame property "
              "HandlesNeverChange, model-checked on a bounded instance. The real objects are held by the harness: 22 getters "
